@@ -559,7 +559,7 @@ pub fn replay_fun(scenario: &str, input: &Value) -> Vec<Finding> {
 }
 
 pub fn plan(quick: bool) -> Plan {
-    let (lt, lr) = if quick { (7, 3) } else { (9, 4) };
+    let (lt, lr) = if quick { (8, 4) } else { (10, 5) };
     Plan {
         property: "C13".into(),
         rule: format!("(a) every string of length <= {} over {{A, a, space, ':', ',', '#'}} through the real Message::from_shared_str, compared (Debug rendering) with a reference tokenizer written from the RFC grammar wherever the reference deems the line well-formed; (b) 41 verbs in 3 letter cases + unknown verbs x arity 0..max+2 through Command::from_message (class Ok / NeedMoreParams / UnknownCommand / parameter error vs a table of minimum arities) and on the wire (461 / 421); (c) a 3-line payload cut at every 1 and 2 byte positions, lines around the 2000-byte limit followed by a normal line, empty and blank lines; (d) relay round trip: PRIVMSG (channel, nick, middle-parameter form), NOTICE, TOPIC, PART, KICK, WALLOPS, AWAY(301) with every text <= {} over {{a, space, ':'}} plus NICK and INVITE: the receiver's line re-parsed by the reference yields the same verb, target and text; every emitted byte stream is CRLF-terminated lines without stray CR/LF", lt, lr),
